@@ -19,6 +19,8 @@ def main():
     ap.add_argument("--replay")
     args = ap.parse_args()
     prop = args.prop.upper()
+    if args.replay:
+        args.replay = os.path.abspath(args.replay)  # before bootstrap changes the working directory
     t0 = time.time()
     try:
         engine.bootstrap()
